@@ -6,7 +6,8 @@ from ..e2e import HEADER, CASE_TYPE, CHECK, MODEL_VIEW, SHARD, CASE_TIMEOUT, obs
 
 ID = "C12"
 THEOREMS = ["C12_config", "C12_sfc_is_ips", "C12_sfc_defined", "C12_copier", "C12_symfile",
-            "C12_oracle_sound", "C12_file_matches", "C12_model_satisfies_oracles"]
+            "C12_oracle_sound", "C12_file_matches", "C12_model_satisfies_oracles",
+            "C12_defines_are_constants", "C12_define_literal", "C12_cli_defines"]
 RULE = ("the option lattice format {ips, sfc} x mapping {default, low, low2, high} x copier header {off, on} x -D defines "
         "{none, one, several} x generated programs valid under the mapping (offsets kept below 64 KiB so that flat images "
         "stay small): Program.assemble / assemble_as_patch on files for every point, the x816 command line in a subprocess "
@@ -16,7 +17,9 @@ PROVED_NOTE = ("proved: the SFC image equals the IPS patch applied to an empty i
                "header shifts offsets by exactly 0x200; a front end is the in-memory assembly followed by the writer; symbol "
                "file fields; the model's own output satisfies the run-time oracle c12_ok for every source (the independent decoder of the "
                "oracle reads back exactly the in-memory blocks), so the oracle cannot false-alarm on observations that agree with the "
-               "model. Correspondence-only: option parsing (argparse), -D handling, file I/O, exit status.")
+               "model; pre-bound -D values ARE the statements NAME := VALUE in front of the program (whole result equal, any names "
+               "and integers), and the command line's evaluation of its -D texts is the evaluator folded over the list with the "
+               "root scope growing. Correspondence-only: option parsing (argparse), file I/O, exit status.")
 MANIFEST = {
     "text": ("Coq theorems on the writer models (IPS = patch of exactly the blocks, SFC = that patch applied to an empty image, "
              "copier = +0x200) and on the front-end model; tied to cli.py/program.py/writers.py by an exhaustive run of the "
@@ -106,6 +109,17 @@ def cases(ctx):
             out.append({"kind": f"no-origin:{fmt}:{mapping}", "rom": mapping if mapping else None, "mapping": mapping, "format": fmt,
                         "copier": False, "defines": {}, "api": True, "cli": mapping is not None, "symfile": True,
                         "src": "start:\n.dw start\n.dl start\nlda.l start\nsecond:\n.dl second\n", "spec": {"t": "c12"}})
+    # characters a front end might be tempted to normalise while reading the file (TAB inside a string and as
+    # indentation, non-ASCII text, a last line without newline): every front end sees the same text.  (CR LF / lone CR
+    # line ends are left out: open() in text mode turns them into LF before the assembler sees them, DESIGN S.6.)
+    for mapping in ("low", "high"):
+        org = ORG[mapping][0]
+        for name, src in (("tab", f"*={org:#08x}\n\tstart:\n\t.ascii 'HP\t999'\n\t.ascii '\t'\nend:\n.dl end\n"),
+                          ("tab8", f"*={org:#08x}\n.ascii 'a\tb\t\tc'\nend:\n.dl end"),
+                          ("utf8", f"*={org:#08x}\n.ascii 'caf\u00e9 \u00fc'\nend:\n.dl end ; \u00e9\n")):
+            for fmt in ("ips", "sfc"):
+                out.append({"kind": f"verbatim-text:{name}:{fmt}", "rom": mapping, "mapping": mapping, "format": fmt, "copier": False,
+                            "defines": {}, "src": src, "api": True, "cli": fmt == "ips", "symfile": True, "spec": {"t": "c12"}})
     # one contiguous block longer than an IPS record can hold (split into records), with and without the copier header
     blob = [(i * 7 + 3) & 0xFF for i in range(0x10005)]     # two records; stays below the size limit for shipped files
     for copier in (False, True):
